@@ -49,7 +49,8 @@ ARRAY_FAULTS = ["field_pm1", "field_from_other_row", "field_zero", "field_neg1",
                 "field_binbound", "field_extreme", "swap_wh", "one_dim_match",
                 "exchange_ids", "relabel_identical", "move_bin", "new_bin_gap",
                 "n_bins_off", "n_bins_nonint", "wrong_dtype", "wrong_shape"]
-FAULT_KINDS = TEXT_FAULTS + BENIGN + ARRAY_FAULTS
+FAULT_KINDS = TEXT_FAULTS + BENIGN + ARRAY_FAULTS + [
+    "same_name_other_instance"]
 CLAUSES = ["shape", "id", "bin-range", "coords", "outside", "size", "overlap",
            "multiplicity", "bin-gap", "n_bins"]
 _ALONE = ["outside", "size", "overlap", "multiplicity", "bin-gap", "n_bins",
@@ -124,6 +125,10 @@ def generate(rng: random.Random, batch: dict, depth: int = 0,
             sub.pop("inst")
             more.append(sub)
         doc["more"] = more
+    if depth == 0 and "resource" not in inst and rng.random() < 0.1:
+        twin = generate(rng, batch, depth=2)
+        if "resource" not in twin["inst"]:
+            doc["twin"] = twin
     return doc
 
 
@@ -438,6 +443,30 @@ def _write_log(path: str, space, y, inst_name: str) -> None:
 
 
 def execute(doc: dict) -> dict:
+    """Optionally followed by a twin: another instance with the SAME name and
+    its own PackingSpace."""
+    name = packgen.scenario_name(doc)
+    res = _execute_one(doc, name)
+    twin = doc.get("twin")
+    if twin is not None and res["violation"] is None:
+        r2 = _execute_one(twin, name)
+        res["events"].append(["twin"])
+        res["events"].extend(r2["events"])
+        for key in ("faults", "probes"):
+            for k, v in r2[key].items():
+                res[key][k] = res[key].get(k, 0) + v
+        res["states"].extend(r2["states"])
+        res["ops"] += r2["ops"]
+        res["sim_time"] += r2["sim_time"]
+        res["nontrivial"] = res["nontrivial"] or r2["nontrivial"]
+        core.bump(res["faults"], "same_name_other_instance")
+        if r2["violation"] is not None:
+            res["violation"] = r2["violation"]
+            res["violation"]["in_twin"] = True
+    return res
+
+
+def _execute_one(doc: dict, name: str) -> dict:
     import warnings
 
     import numpy as np
@@ -445,7 +474,7 @@ def execute(doc: dict) -> dict:
     from moptipyapps.binpacking2d.packing_space import PackingSpace
 
     res = core.new_result()
-    inst = packgen.build_instance(doc["inst"], packgen.scenario_name(doc))
+    inst = packgen.build_instance(doc["inst"], name)
     W, H = int(inst.bin_width), int(inst.bin_height)
     items = [[int(v) for v in row] for row in inst]
     n_items = int(inst.n_items)
@@ -734,6 +763,10 @@ def _run_case(doc, case, ci, res, inst, space, W, H, items, n_items, lo, hi):
 # ------------------------------------------------------------------ shrinking
 
 def reductions(doc: dict):
+    if doc.get("twin") is not None:
+        yield {k: v for k, v in doc.items() if k != "twin"}
+        for cand in reductions(doc["twin"]):
+            yield {**doc, "twin": cand}
     if doc.get("more"):
         for cand in core.list_deletions(doc["more"], 0):
             yield {**doc, "more": cand}
